@@ -20,7 +20,7 @@ CHUNK = 8
 RULE = ("a run = one operation history over create_agent / create_agents / delete_agent / delete_agents (live, already "
         "deleted, never existing ids) / configure_agents / reset / state change, with every query compared with a shadow "
         "registry after every operation; the enumerated part covers all 19 607 histories of length <= 5 over 7 concrete "
-        "operations, the sampled part histories of 3-40 operations over 2 agent types and <= 10 live agents; non-trivial = "
+        "operations (thorough: also all 117 649 of length 6), the sampled part histories of 3-40 operations over 2 agent types and <= 10 live agents; non-trivial = "
         "the history contains a deletion, reconfiguration or reset followed by at least one more operation or query "
         "round; distinct = distinct event-log digest")
 REAL = ["BPTK_Py.modeling.model.Model (create_agent(s), delete_agent(s), configure_agents, reset, agent, agent_ids, agent_count, "
@@ -66,6 +66,13 @@ def plan(tier, verif_seed):
         for b in ALPHABET:
             yield {"i": i, "kind": "enum_block", "prefix": a + b}
             i += 1
+    if tier == "thorough":
+        # all 117 649 histories of length 6 as well
+        for a in ALPHABET:
+            for b in ALPHABET:
+                for c in ALPHABET:
+                    yield {"i": i, "kind": "enum_block6", "prefix": a + b + c}
+                    i += 1
     n = 3000 if tier == "quick" else 10**9
     for j in range(n):
         yield {"i": i, "kind": "random", "seed": derive_seed(verif_seed, PROPERTY, j), "keep_sample": j < 1}
@@ -78,6 +85,9 @@ def generate(spec):
         return {"property": PROPERTY, "kind": "enum", "histories": hs}
     if spec["kind"] == "enum_block":
         hs = [spec["prefix"] + "".join(p) for L in (1, 2, 3) for p in itertools.product(ALPHABET, repeat=L)]
+        return {"property": PROPERTY, "kind": "enum", "histories": hs}
+    if spec["kind"] == "enum_block6":
+        hs = [spec["prefix"] + "".join(p) for p in itertools.product(ALPHABET, repeat=3)]
         return {"property": PROPERTY, "kind": "enum", "histories": hs}
     rng = random.Random(spec["seed"])
     ops = []
